@@ -26,7 +26,10 @@ EXPLANATION = (
     'table, then RENAME, in that order; R-C02.6 every UPDATE template on a '
     'user table is guarded by WHERE <same column> IS NULL; R-C02.7 a declared '
     'initial value is recorded for the rebuild whenever it is not None (no '
-    'other condition).')
+    'other condition); R-C02.8 the optimiser\'s per-field bookkeeping '
+    '(last_change_mutations) is invalidated when an entry is consumed and '
+    'only holds ChangeField mutations, so initial values and null changes are '
+    'never merged into a different field.')
 NOT_DECIDED = (
     'Equality of row contents before/after for all rows and sequences; '
     'behaviour of renames at the SQL level.')
@@ -516,7 +519,17 @@ def r7_initials_unfiltered(ctx):
                    st.ast)
 
 
+def r8_optimiser_bookkeeping(ctx):
+    """The optimiser merges attributes (null / initial) between mutations of
+    one field; a stale bookkeeping entry merges them into the wrong field and
+    the wrong initial value is written into existing rows.  Same clause as
+    R-C03.6, necessary for C02 as well."""
+    from .c03 import r6_consumed_entries_invalidated
+    r6_consumed_entries_invalidated(ctx, rule_id='R-C02.8')
+
+
 def run(ctx):
+    r8_optimiser_bookkeeping(ctx)
     r7_initials_unfiltered(ctx)
     r1_r4_copy_map(ctx)
     r4b_update_params(ctx)
